@@ -38,6 +38,9 @@ func runC17(p *Prog, r *Report) {
 	r.Min("C17.R7", 11+4)
 	checkParseBeforeUse(p, r, "C17.R7")
 	checkParsingSequential(p, r, "C17.R7")
+	if checkEveryOptionParsed(p, r, "C17.R7", func(f string) bool { return f == "iface" || f == "srcMAC" || f == "gatewayMAC" }) < 3 {
+		r.Viol("C17.R7", "interface-options-parsed/sites", "-", "the interface, source-MAC and gateway-MAC derivations are found", "fewer than 3")
+	}
 	checkFlagFieldsReadOnly(p, r, "C17.R7", func(fr FlagReg) bool {
 		return fr.Name == "iface" || fr.Name == "srcip" || fr.Name == "srcmac" || fr.Name == "gwmac"
 	})
@@ -72,6 +75,34 @@ func checkParseBeforeUse(p *Prog, r *Report, rule string) {
 		}
 		loadsCache[f] = m
 		return m
+	}
+	// fields derived by any parse step of the package, with the method that derives them
+	writtenBy := func(parse *ssa.Function, pkg *types.Package) map[*types.Var]bool {
+		W := map[*types.Var]bool{}
+		for g := range p.staticReach(parse) {
+			for _, b := range g.Blocks {
+				for _, in := range b.Instrs {
+					if st, ok := in.(*ssa.Store); ok {
+						if fa, isFA := st.Addr.(*ssa.FieldAddr); isFA {
+							if fo := fieldObj(fa); fo != nil && fo.Pkg() == pkg {
+								W[fo] = true
+							}
+						}
+					}
+				}
+			}
+		}
+		return W
+	}
+	WAll := map[*types.Var]*ssa.Function{}
+	for _, f := range p.SrcFuncs() {
+		if isParse(f) {
+			for fo := range writtenBy(f, f.Pkg.Pkg) {
+				if prev, dup := WAll[fo]; !dup || len(FuncName(f)) > len(FuncName(prev)) {
+					WAll[fo] = f
+				}
+			}
+		}
 	}
 	n := 0
 	for _, fn := range p.SrcFuncs() {
@@ -136,6 +167,25 @@ func checkParseBeforeUse(p *Prog, r *Report, rule string) {
 				for f := range loadsOf(cal) {
 					if W[f] {
 						ok, why = false, fmt.Sprintf("%s reads the options field %s, but no parseRawOptions call dominates it (the flag behind it is ignored on some path)", cal.Name(), f.Name())
+					}
+				}
+			}
+		}
+		// the parse step this command calls derives every derived field the command goes on to read: a
+		// parseRawOptions that shadows the embedded one without delegating to it leaves those fields unparsed
+		for _, b := range fn.Blocks {
+			for _, in := range b.Instrs {
+				c, isC := in.(*ssa.Call)
+				if !isC {
+					continue
+				}
+				cal := StaticCallee(&c.Call)
+				if cal == nil || cal.Pkg != fn.Pkg || isParse(cal) {
+					continue
+				}
+				for f := range loadsOf(cal) {
+					if by, derived := WAll[f]; derived && !W[f] {
+						ok, why = false, fmt.Sprintf("%s reads the options field %s, which only %s derives from its flag; the parse step called here (%s) never reaches it (the flag is ignored)", cal.Name(), f.Name(), FuncName(by), FuncName(parse))
 					}
 				}
 			}
@@ -508,12 +558,40 @@ func funcArgOfAny(c *ssa.CallCommon) *ssa.Function {
 func checkRouteLoops(p *Prog, r *Report) {
 	n := 0
 	for _, fn := range p.SrcFuncs() {
-		if fn.Pkg != p.SPkg("pkg/ip") || fn.Parent() != nil || len(callInstrs(fn, "github.com/vishvananda/netlink.RouteList")) == 0 {
+		if fn.Pkg != p.SPkg("pkg/ip") || fn.Parent() != nil {
+			continue
+		}
+		// the route table is read with RouteList(nil, FAMILY_V4), or with what that call is defined as:
+		// RouteListFiltered(FAMILY_V4, nil, mask) - no link, no filter, IPv4 (AF_INET = 2) only
+		var listCalls []*ssa.Call
+		listCalls = append(listCalls, callInstrs(fn, "github.com/vishvananda/netlink.RouteList")...)
+		listCalls = append(listCalls, callInstrs(fn, "github.com/vishvananda/netlink.RouteListFiltered")...)
+		if len(listCalls) == 0 {
 			continue
 		}
 		n++
 		name := FuncName(fn)
 		pos := p.Pos(fn.Pos())
+		{
+			okA, whyA := len(listCalls) == 1, fmt.Sprintf("%d route-list calls", len(listCalls))
+			if okA {
+				c := listCalls[0]
+				var fam, filt ssa.Value
+				if strings.HasSuffix(calleeFull(&c.Call), ".RouteList") {
+					filt, fam = c.Call.Args[0], c.Call.Args[1]
+				} else {
+					fam, filt = c.Call.Args[0], c.Call.Args[1]
+				}
+				k, isK := constInt(fam)
+				if !isK || k != 2 {
+					okA, whyA = false, "the address family is not FAMILY_V4"
+				}
+				if !isNilConst(filt) {
+					okA, whyA = false, "a link / route filter is passed: routes of other interfaces are not seen"
+				}
+			}
+			r.Check(okA, "C17.R5", name+"/whole-ipv4-table", pos, "the default route is chosen among all IPv4 routes (no link or route filter, family AF_INET)", whyA)
+		}
 		heads := loopHeadersSorted(fn)
 		if len(heads) != 1 {
 			r.Undecided("C17.R5", name, pos, "one loop over the routes", fmt.Sprint(len(heads)))
